@@ -578,7 +578,7 @@ func init() {
 	add(c05Entry{name: "packet-modifiers", kind: kindPacket, readOnly: false, seeds: "packet", run: c05PacketModifiers})
 	add(c05Entry{name: "packet-psi", kind: kindPacket, readOnly: true, seeds: "packet", run: c05PacketPSI})
 	add(c05Entry{name: "stream-readers", kind: kindStream, readOnly: true, seeds: "stream", run: c05Streams})
-	engine.RegisterIsolated("C05", "short-strings", "seed-mutations", "seed-double-mutations", "long-inputs", "packet-grid", "stream-sequences")
+	engine.RegisterIsolated("C05", "short-strings", "seed-mutations", "seed-double-mutations", "long-inputs", "packet-grid", "stream-sequences", "generated-scte35")
 }
 
 func c05EntryByName(n string) *c05Entry {
@@ -934,6 +934,27 @@ func c05Check(c c05Case) engine.Result {
 				break
 			}
 		}
+		// two-segment tails: a run of "continue" bytes that ends near the 8-bit cursor limit, followed by
+		// a different fill (a chain that terminates just before / at / after the cursor wraps)
+		for _, fa := range []byte{0x80, 0x90, 0xFF} {
+			for _, fb := range []byte{0x00, 0x10, 0x7F} {
+				for end := 243; end <= 258; end++ {
+					if end <= c.A {
+						continue
+					}
+					in := make([]byte, 300)
+					copy(in, prefix)
+					for i := c.A; i < 300; i++ {
+						if i < end {
+							in[i] = fa
+						} else {
+							in[i] = fb
+						}
+					}
+					c05Exec(&res, e, in, &scratch)
+				}
+			}
+		}
 	case "grid":
 		// A = adaptation_field_control (0..3), B = adaptation_field_length; all 256 flag bytes x length bytes
 		var p [188]byte
@@ -997,6 +1018,14 @@ func c05Check(c c05Case) engine.Result {
 				break
 			}
 		}
+	case "gen-scte35":
+		// A = descriptor-loop shape, B = UPID/MID variant of the segmentation descriptors
+		sec := c05GenSCTE(c.A, c.B)
+		full := ref.S35Bytes(&sec)
+		c05Exec(&res, e, full, &scratch)
+		for k := 0; k < len(full); k++ {
+			c05Exec(&res, e, full[:k], &scratch)
+		}
 	case "streamseq":
 		// A encodes a sequence of up to 3 packet indices (base n+1, 0 = none); B = cut length (-1: none)
 		alpha := c05StreamAlphabet()
@@ -1021,6 +1050,53 @@ func c05Check(c c05Case) engine.Result {
 	res.Outcome(c.Entry, c.Family, len(res.Fail) > 0)
 	return res
 }
+
+// c05GenSCTE builds a structurally consistent splice_info_section (all lengths and the CRC right) whose
+// descriptor loop has shape number `shape` (every sequence of <=3 descriptors over {segmentation,
+// foreign tag 0x00 with the captured avail body, foreign tag 0x01 with 4 bytes}) and whose
+// segmentation descriptors carry UPID/MID variant `variant` (stream-switch style MIDs whose texts
+// end in, start with or merely contain the keywords the getters look for).
+func c05GenSCTE(shape, variant int) ref.S35Section {
+	s := ref.S35Canonical()
+	s.CmdType = ref.S35CmdTime
+	s.Time = ref.S35Time{Specified: true, PTS: 90000}
+	seg := ref.S35Seg{EventID: 7, Program: true, TypeID: 0x40, SegNum: 1, SegsExpected: 1}
+	adi := []string{"BLACKOUT", "BLACKOUT:", "BLACKOUT:abc", "xxBLACKOUT", "", "BLACKOUT:BLACKOUT", "BLACKOU"}
+	ads := []string{"comcast:linear:licenserotation", "xcomcast:linear:licenserotationy", ""}
+	switch {
+	case variant == 0:
+		seg.NotRestricted = true
+	case variant == 1:
+		seg.UPIDType, seg.UPID = 0x09, []byte("BLACKOUT")
+	case variant == 2:
+		seg.UPIDType, seg.MID = 0x0D, []ref.S35UPID{{Type: 0x09, Data: []byte("BLACKOUT:1")}}
+	case variant == 3:
+		seg.UPIDType, seg.MID = 0x0D, []ref.S35UPID{{Type: 0x09, Data: []byte("BLACKOUT")}, {Type: 0x0E, Data: []byte(ads[0])}, {Type: 0x01, Data: nil}}
+	default:
+		v := variant - 4
+		seg.NotRestricted = v%2 == 1
+		v /= 2
+		seg.UPIDType = 0x0D
+		seg.MID = []ref.S35UPID{{Type: 0x09, Data: []byte(adi[v%len(adi)])}, {Type: 0x0E, Data: []byte(ads[(v/len(adi))%len(ads)])}}
+	}
+	kinds := []int{}
+	for x := shape; x > 0; x /= 4 {
+		kinds = append(kinds, x%4)
+	}
+	for _, k := range kinds {
+		switch k {
+		case 1:
+			s.Descs = append(s.Descs, ref.S35Desc{IsSeg: true, Tag: ref.S35SegTag, Identifier: ref.S35CUEI, Seg: seg})
+		case 2:
+			s.Descs = append(s.Descs, ref.S35Desc{Tag: 0x00, Body: []byte{'C', 'U', 'E', 'I', 0x00, 0x38, 0x32, 0x31}})
+		case 3:
+			s.Descs = append(s.Descs, ref.S35Desc{Tag: 0x01, Body: []byte{1, 2, 3, 4}})
+		}
+	}
+	return s
+}
+
+const c05GenSCTEVariants = 4 + 2*7*3
 
 var c05StreamAlpha [][188]byte
 
@@ -1151,6 +1227,20 @@ func c05Gen(family string) func(r *engine.Run, emit func(c05Case)) {
 						emit(c05Case{Entry: e.name, Family: "grid", A: afc, B: l})
 					}
 				}
+			case "gen-scte35":
+				if e.name != "scte35.NewSCTE35" {
+					continue
+				}
+				for shape := 0; shape < 64; shape++ {
+					// canonical base-4 encodings only: no "none" digit below a descriptor
+					d0, d1, d2 := shape%4, (shape/4)%4, shape/16
+					if (d0 == 0 && (d1 != 0 || d2 != 0)) || (d1 == 0 && d2 != 0) {
+						continue
+					}
+					for v := 0; v < c05GenSCTEVariants; v++ {
+						emit(c05Case{Entry: e.name, Family: "gen-scte35", A: shape, B: v})
+					}
+				}
 			case "streamseq":
 				if e.kind != kindStream {
 					continue
@@ -1186,7 +1276,8 @@ func init() {
 			c05Scenario("short-strings", "short", "ALL byte strings of length 0..2 (thorough: 0..3) for each of the 19 byte-string/stream entry points (PSI helpers, NewPAT, NewPMT, descriptor decoders, NewPESHeader, ReadEncoderBoundaryPoint, NewSCTE35, FromBytes, stream readers)."+common),
 			c05Scenario("seed-mutations", "mut1", "for each entry point and each well-formed seed of its pool (reference-built PAT/PMT/PES/EBP structures and packets + byte vectors captured from the repository's tests + SCTE-35 sections built through the creation API): the seed, EVERY truncation, extensions by 1..3 bytes of 00/FF, and EVERY byte position (all positions up to 72 bytes, else the first 56 and last 8) set to EVERY value 0..255, plus the mutated seed cut right after the mutated byte."+common),
 			c05Scenario("seed-double-mutations", "mut2", "pairs of mutations (position1 < position2, both from 16 interesting values 00,01,02,03,0D,34,47,7F,80,90,B0,F0,FC,FD,FE,FF) on every 4th seed (thorough: every seed) of every byte-string and packet entry point."+common),
-			c05Scenario("long-inputs", "long", "index-wraparound family: for every seed and every cut position up to 20 (thorough 40), the valid prefix is extended with each of 6 fills (00, 80, 90, FF, (01 FC)*, (01 00)*) to total lengths {255,256,257,300} and, for the SCTE-35/PMT/accumulator-predicate entry points, {4096,65535,65536,65537,65545,65600}, each also with 0xFFFF planted at every 2-byte position before the cut (makes 8-/16-bit cursors and length fields wrap)."+common),
+			c05Scenario("long-inputs", "long", "index-wraparound family: for every seed and every cut position up to 20 (thorough 40), the valid prefix is extended with each of 6 fills (00, 80, 90, FF, (01 FC)*, (01 00)*) to total lengths {255,256,257,300} and, for the SCTE-35/PMT/accumulator-predicate entry points, {4096,65535,65536,65537,65545,65600}, each also with 0xFFFF planted at every 2-byte position before the cut (makes 8-/16-bit cursors and length fields wrap); plus two-segment tails (a run of 80/90/FF ending at every position 243..258 followed by 00/10/7F, total 300 bytes) for chains that end next to the 8-bit cursor limit."+common),
+			c05Scenario("generated-scte35", "gen-scte35", "structure-aware SCTE-35 inputs built by the reference encoder with all lengths and the CRC consistent: every descriptor-loop shape of <=3 descriptors over {segmentation, foreign tag 00, foreign tag 01} x 46 UPID/MID variants of the segmentation descriptors (none, single ADI, MIDs of 1..3 entries, stream-switch style MIDs whose ADI text is one of {BLACKOUT, BLACKOUT:, BLACKOUT:abc, xxBLACKOUT, empty, BLACKOUT:BLACKOUT, BLACKOU} and whose ADS text matches / contains / lacks the rotation keyword, delivery restricted or not); each section whole and cut at every byte; all getters incl. StreamSwitchSignalId, the state tracker, String and re-encoding run on whatever decodes."+common),
 			c05Scenario("packet-grid", "grid", "packet accessors, modifiers and packet-level PSI helpers on packets with adaptation_field_control 0..3 x adaptation_field_length from 30 boundary values (thorough: all 256) x all 256 flag bytes x private-data length and extension length bytes from {00,01,7F,B0,FF} plus the four values around 'ends exactly on the last byte of the packet' for the given flags, placed where the flags put them."+common),
 			c05Scenario("stream-sequences", "streamseq", "stream readers (Sync, IsSynced, ReadPAT, ReadPMT, IOWriter Write/ReadFrom, the cli pipeline) on every sequence of <=3 packets from a 14-packet alphabet (good PAT/PMT, PMT split 3+rest, null, and single-field corruptions: section_length 0x3FF, pointer_field 0xFF, ES_info_length/program_info_length 0xFFF, adaptation_field_length 0xFF/183, AF-only, no sync byte), whole and — for sequences of <=2 (quick: a subset) — cut at every byte length; default and one-byte-at-a-time readers."+common),
 		},
